@@ -76,7 +76,7 @@ func c12StmtName(k *c12Kind, m string) string {
 	case "J":
 		return f[0] + " " + k.Join
 	default:
-		return f[0] + " a_users"
+		return f[0] + " c12_users"
 	}
 }
 
@@ -187,7 +187,7 @@ func init() {
 		cfg := c12GenCfg{Kinds: kinds, Unscoped: 0.4, Slice: 0.4, MaxLen: 8, Avoid: 0.5}
 		var batch []c12Seq
 		for i := 0; i < n && !expired(); i++ {
-			s := genC12Seq(rng, cfg)
+			s := c12GenSeq(rng, cfg)
 			c12Hist(r, "tie", s)
 			batch = append(batch, s)
 			if len(batch) == 500 || i == n-1 {
